@@ -126,7 +126,7 @@ func run(r *report.Run, shard, nshards int, replayFile string) {
 	e.gov = skywaykeeper.NewSkywayProposalHandler(w.App.SkywayKeeper)
 	e.deadline = r.Deadline(240*time.Second, 27*time.Minute)
 
-	r.Rule = "tax: full product amount x rate string x {non-exempt, exempt} x funding {a+tax-1, a+tax, a+tax+5}; each case = signed MsgSendToRemote on a fork, then (fork 1) MsgCancelSendToRemote, (fork 2) batch built by skyway.EndBlocker at h%50==0 + 3 MsgBatchSendToRemoteClaim + tally; a case is distinct by (amount, rate, exempt, funding, outcome). " +
+	r.Rule = "tax: full product amount x rate string x {non-exempt, exempt} x funding {a+tax-1, a+tax, a+tax+5}; each case = signed MsgSendToRemote on a fork, then (fork 1) MsgCancelSendToRemote, (fork 2) batch built by skyway.EndBlocker at h%50==0 + 3 MsgBatchSendToRemoteClaim + tally, (fork 3) batch + timeout release by skyway.EndBlocker (block time +11 min) then cancel / re-batch + execution; a case is distinct by (amount, rate, exempt, funding, outcome). " +
 		"reconfig: every ordered pair (S1,S2) of tax settings rate {unset,0,1/3,1/2,1} x exempt {none,sender,other} (S2 never unset), written through {proposal handler, keeper setter} alternately: send by U1 under S1, S2 stored, send by U2 under S2, then {cancel, batch + attested execution, batch + timeout + cancel of both}. " +
 		"exempt-lists: all 15 ordered lists of 1..3 of three addresses with first bytes high/low/middle x store path {proposal handler, Keeper.SetBridgeTax/SetBridgeTransferLimit, skyway ExportGenesis -> JSON -> InitGenesis}; every address and an unlisted one sends (taxed token, limited token above and within the limit). " +
 		"limit-reconfig: settings (limit {500,1000} x {DAILY,WEEKLY} x U1 exempt?, NONE) S1, send@h0, S2, send x 6 heights, send; " +
@@ -135,6 +135,8 @@ func run(r *report.Run, shard, nshards int, replayFile string) {
 		"'any one limit window' is read as the code's tumbling window: a window opens at the first ACCEPTED non-exempt transfer after the previous window lapsed (height - start >= BlockLimit(period)) and lasts BlockLimit blocks; a sliding-window reading is NOT checked (sequences in which more than the limit is accepted within fewer than BlockLimit blocks across a window boundary are counted in coverage.sliding_window_exceeding_sequences, informational)",
 		"the limit counts transfer amounts (without tax); the limit scenarios configure no tax; cancelled transfers do not give allowance back (not required by the property)",
 		"a send whose total a+floor(a*r) does not fit sdk math.Int (256 bits), or whose intermediate product a*numerator(r) / the rate's numerator or denominator does not fit, may be rejected - also by a panic recovered by baseapp.runTx (harness: res.Stage==\"panic\") - provided nothing changes in the skyway and bank stores; such rejections are counted in coverage.panics_recovered_no_state_change / representable_rejected_intermediate_overflow",
+		"a limit of 0 and an unset (nil) limit both mean: no non-exempt transfer is accepted in any window (accepted total <= 0); an unset limit reads back from the store as 0; scenarios with limit 0 / nil exist for every real period and every store path (coverage.limit_scenarios)",
+		"every tax / limit record written by the check is read back; a refused or differently stored setting is reported as a violation (…-setting-rejected / …-setting-not-stored-as-configured), exit 2 is reserved for world / chain / token set-up faults",
 		"'no state change' = digest of the complete skyway and bank stores (the ante handler's sequence increment in the auth store is outside the property)",
 		"heights are jumped with world.At: the send handler reads only ctx.BlockHeight(); block time is irrelevant to it",
 		"tax and limit are configured through keeper.NewSkywayProposalHandler (the function app.go registers on the gov v1beta1 router); the gov module's voting is not exercised",
@@ -390,13 +392,11 @@ func (e *env) runTax(c taxCase) (outcome string, fail *explore.Fail) {
 		if std, ok := new(big.Rat).SetString(c.Rate); !ok || std.Cmp(rate) != 0 {
 			panic(fmt.Sprintf("harness: rate parser disagrees with big.Rat on %q", c.Rate))
 		}
-		if err := e.gov(ctx, &skywaytypes.SetBridgeTaxProposal{Title: "t", Description: "d", Token: denom, Rate: c.Rate,
-			ExemptAddresses: []string{e.u2.Addr.String(), e.ex.Addr.String()}}); err != nil {
-			return "", explore.Failf("tax-config-rejected", "proposal handler rejected rate %q: %v", c.Rate, err)
+		if err := e.setTax(ctx, "handler", denom, c.Rate, []sdk.AccAddress{e.u2.Addr, e.ex.Addr}); err != nil {
+			return "", explore.Failf("tax-setting-rejected:handler", "proposal handler rejected rate %q: %v", c.Rate, err)
 		}
-		st, err := k.BridgeTax(ctx, denom)
-		if err != nil || st.Rate != c.Rate || len(st.ExemptAddresses) != 2 {
-			return "", explore.Failf("tax-config-stored", "stored tax record %v / %v differs from the proposal (rate %q)", st, err, c.Rate)
+		if f := e.taxStored(ctx, denom, c.Rate, []sdk.AccAddress{e.u2.Addr, e.ex.Addr}, "handler"); f != nil {
+			return "", f
 		}
 	}
 	tax := new(big.Int)
@@ -532,6 +532,69 @@ func (e *env) runTax(c taxCase) (outcome string, fail *explore.Fail) {
 			return "", explore.Failf("tax-exec-batch", "batch still stored after attested execution")
 		}
 	}
+	// fork 3: the batch times out and is released by the end-blocker
+	// (cleanupTimedOutBatches -> CancelOutgoingTXBatch); the transfer returns to
+	// the pool with its recorded tax; then (3a) cancel refunds all, (3b) a second
+	// batch + attested execution burns all.
+	{
+		c3 := world.Fork(ctx)
+		h := (c3.BlockHeight()/50 + 1) * 50
+		c3 = world.At(c3, h, c3.BlockTime().Add(time.Second))
+		w.SkywayEnd(c3, nil)
+		if bs, _ := k.GetOutgoingTxBatches(c3); len(bs) != 1 {
+			return "", explore.Failf("tax-batch", "end-blocker at height %d built %d batches", h, len(bs))
+		}
+		c3 = world.At(c3, h+1, c3.BlockTime().Add(11*time.Minute))
+		w.SkywayEnd(c3, nil)
+		if bs, _ := k.GetOutgoingTxBatches(c3); len(bs) != 0 {
+			return "", explore.Failf("timeout-release-batch-kept", "batch still stored 11 minutes after it was built")
+		}
+		pool, err := k.GetUnbatchedTransactions(c3)
+		if err != nil || len(pool) != 1 {
+			return "", explore.Failf("timeout-release-pool", "after the timeout release the pool holds %d transfers (%v)", len(pool), err)
+		}
+		rt := pool[0]
+		if rt.Id != t.Id || rt.BridgeTaxAmount.IsNil() || rt.BridgeTaxAmount.BigInt().Cmp(tax) != 0 || rt.Erc20Token.Amount.BigInt().Cmp(a) != 0 || !rt.Sender.Equals(sender.Addr) {
+			return "", explore.Failf("timeout-release-recorded-tax", "transfer released from a timed-out batch has amount %s tax %s; recorded when sent: amount %s tax %s (rate %s, exempt %v)", rt.Erc20Token.Amount, rt.BridgeTaxAmount, a, tax, c.Rate, c.Exempt)
+		}
+		if esc := w.Balance(c3, w.SkywayModuleAddr(), denom); esc.Cmp(total) != 0 {
+			return "", explore.Failf("timeout-release-escrow", "escrow holds %s after the timeout release, the pending transfer took %s", esc, total)
+		}
+		{
+			c3a := world.Fork(c3)
+			res := w.DeliverTx(c3a, []*world.Actor{sender}, &skywaytypes.MsgCancelSendToRemote{TransactionId: t.Id, Metadata: world.Meta(sender)})
+			if !res.OK() {
+				return "", explore.Failf("timeout-release-cancel-rejected", "cancel after timeout release rejected: %v", res.Err)
+			}
+			if b := w.Balance(c3a, sender.Addr, denom); b.Cmp(bal) != 0 {
+				return "", explore.Failf("timeout-release-cancel-refund", "after timeout release + cancel the sender holds %s, before the send %s (amount %s, tax %s)", b, bal, a, tax)
+			}
+			if esc := w.Balance(c3a, w.SkywayModuleAddr(), denom); esc.Sign() != 0 {
+				return "", explore.Failf("timeout-release-escrow", "escrow holds %s after timeout release + cancel", esc)
+			}
+		}
+		{
+			c3b := world.At(world.Fork(c3), h+50, c3.BlockTime().Add(time.Second))
+			w.SkywayEnd(c3b, nil)
+			bs, _ := k.GetOutgoingTxBatches(c3b)
+			if len(bs) != 1 || len(bs[0].Transactions) != 1 {
+				return "", explore.Failf("timeout-release-rebatch", "released transfer was not batched again at height %d", h+50)
+			}
+			c3b = world.At(c3b, h+51, c3b.BlockTime().Add(time.Second))
+			for _, v := range w.Vals {
+				if res := w.DeliverTx(c3b, []*world.Actor{v.Actor}, world.BatchExecutedClaim(v, ref, 1, 1, bs[0].BatchNonce, bs[0].TokenContract.GetAddress().Hex())); !res.OK() {
+					return "", explore.Failf("harness-claim", "executed claim rejected: %v", res.Err)
+				}
+			}
+			w.SkywayEnd(c3b, nil)
+			if burned := new(big.Int).Sub(sup0, w.Supply(c3b, denom)); burned.Cmp(total) != 0 {
+				return "", explore.Failf("timeout-release-exec-burn", "execution of the re-batched transfer burned %s; amount %s + tax %s = %s", burned, a, tax, total)
+			}
+			if esc := w.Balance(c3b, w.SkywayModuleAddr(), denom); esc.Sign() != 0 {
+				return "", explore.Failf("timeout-release-escrow", "escrow holds %s after execution of the re-batched transfer", esc)
+			}
+		}
+	}
 	if tax.Sign() == 0 {
 		return "accepted-tax0", nil
 	}
@@ -561,6 +624,29 @@ type limCfg struct {
 	depth   int
 	// exemptU1: the limited user U1 is on the exemption list (limit-reconfig part)
 	exemptU1 bool
+	// Path the limit record is written through (handler | keeper | genesis; "" = handler);
+	// NilLimit: the limit field is left unset (nil math.Int) instead of an explicit 0.
+	Path     string `json:"path"`
+	NilLimit bool   `json:"nil_limit"`
+}
+
+func (c *limCfg) path() string {
+	if c.Path == "" {
+		return "handler"
+	}
+	return c.Path
+}
+
+// limitArg is the configured limit as handed to the code (nil = unset field).
+func (c *limCfg) limitArg() *big.Int {
+	if c.NilLimit {
+		return nil
+	}
+	return c.l
+}
+
+func (c *limCfg) replay(steps []step) map[string]interface{} {
+	return map[string]interface{}{"part": "limit", "period": c.Period, "limit": c.Limit, "path": c.path(), "nil_limit": c.NilLimit, "steps": steps}
 }
 
 type acc struct {
@@ -636,8 +722,9 @@ func (e *env) newCfg(period string, limit *big.Int, depth int, level int) *limCf
 }
 
 // initLimit prepares the scenario on a fork of the root.
-func (e *env) initLimit(c *limCfg) sdk.Context {
+func (e *env) initLimit(c *limCfg) (sdk.Context, []*explore.Fail) {
 	ctx := world.Fork(e.w.Root)
+	var fails []*explore.Fail
 	rich := new(big.Int).Mul(new(big.Int).Add(c.l, big.NewInt(1)), big.NewInt(int64(c.depth+2)))
 	for _, u := range []*world.Actor{e.u1, e.u2, e.ex} {
 		must(e.mint(ctx, e.limDenom, u, rich))
@@ -645,17 +732,49 @@ func (e *env) initLimit(c *limCfg) sdk.Context {
 	must(e.mint(ctx, e.unmDenom, e.u1, big.NewInt(100)))
 	must(e.mint(ctx, e.freeDenom, e.u1, rich))
 	if c.Period != "ABSENT" {
+		exempt := []sdk.AccAddress{e.adm.Addr, e.ex.Addr}
 		for _, d := range []string{e.limDenom, e.unmDenom} {
-			must(e.gov(ctx, &skywaytypes.SetBridgeTransferLimitProposal{Title: "t", Description: "d", Token: d,
-				Limit: sdkmath.NewIntFromBigInt(c.l), LimitPeriod: c.period,
-				ExemptAddresses: []string{e.adm.Addr.String(), e.ex.Addr.String()}}))
-		}
-		st, err := e.w.App.SkywayKeeper.BridgeTransferLimit(ctx, e.limDenom)
-		if err != nil || !st.Limit.Equal(sdkmath.NewIntFromBigInt(c.l)) || st.LimitPeriod != c.period || len(st.ExemptAddresses) != 2 {
-			panic(fmt.Sprintf("harness: stored limit %v / %v differs from the proposal", st, err))
+			// a setting the code under test refuses or stores differently is a verdict, not a harness fault
+			if err := e.setLimit(ctx, c.path(), d, c.limitArg(), c.period, exempt); err != nil {
+				fails = append(fails, explore.Failf("limit-setting-rejected:"+c.path(), "limit %v per %s for %s rejected through %s: %v", c.limitArg(), c.Period, d, c.path(), err))
+				continue
+			}
+			if f := e.limitStored(ctx, d, c.limitArg(), c.period, exempt, c.path()); f != nil {
+				fails = append(fails, f)
+			}
 		}
 	}
-	return ctx
+	return ctx, fails
+}
+
+// limitStored reads the token's limit record back and compares it with what
+// was configured (an unset limit reads back as 0).
+func (e *env) limitStored(ctx sdk.Context, denom string, limit *big.Int, period skywaytypes.LimitPeriod, exempt []sdk.AccAddress, path string) *explore.Fail {
+	want := new(big.Int)
+	if limit != nil {
+		want = limit
+	}
+	st, err := e.w.App.SkywayKeeper.BridgeTransferLimit(ctx, denom)
+	if err != nil {
+		return explore.Failf("limit-setting-not-stored-as-configured:"+path, "limit {%v, %s} written through %s cannot be read back: %v", limit, period, path, err)
+	}
+	got := new(big.Int)
+	if !st.Limit.IsNil() {
+		got = st.Limit.BigInt()
+	}
+	if got.Cmp(want) != 0 || st.LimitPeriod != period || !sameSet(st.ExemptAddresses, exempt) || st.Token != denom {
+		return explore.Failf("limit-setting-not-stored-as-configured:"+path, "configured through %s: limit %v period %s exempt %v; stored: limit %s period %s exempt %v", path, limit, period, exempt, st.Limit, st.LimitPeriod, st.ExemptAddresses)
+	}
+	return nil
+}
+
+// taxStored is the same read-back for the tax record.
+func (e *env) taxStored(ctx sdk.Context, denom, rate string, exempt []sdk.AccAddress, path string) *explore.Fail {
+	st, err := e.w.App.SkywayKeeper.BridgeTax(ctx, denom)
+	if err != nil || st.Rate != rate || st.Token != denom || !sameSet(st.ExemptAddresses, exempt) {
+		return explore.Failf("tax-setting-not-stored-as-configured:"+path, "configured through %s: rate %q exempt %v; stored: %v (%v)", path, rate, exempt, st, err)
+	}
+	return nil
 }
 
 func (e *env) usage(ctx sdk.Context, denom string) (*skywaytypes.BridgeTransferUsage, error) {
@@ -730,7 +849,9 @@ func (e *env) stepLimit(c *limCfg, ctx *sdk.Context, m *model, s step, dS, dB st
 		if limited && !withinLimit {
 			// seam: the counter is checked before it is persisted (no transaction cache here)
 			f := world.Fork(*ctx)
-			err := w.App.SkywayKeeper.UpdateBridgeTransferUsageWithLimit(f, sender.Addr, sdk.Coin{Denom: denom, Amount: sdkmath.NewIntFromBigInt(amt)})
+			err, _ := world.Protect(func() error {
+				return w.App.SkywayKeeper.UpdateBridgeTransferUsageWithLimit(f, sender.Addr, sdk.Coin{Denom: denom, Amount: sdkmath.NewIntFromBigInt(amt)})
+			})
 			e.keeperSeam++
 			if err == nil {
 				return "", false, explore.Failf("limit-keeper-accepted-over-limit", "UpdateBridgeTransferUsageWithLimit accepted %v although the transaction was rejected", s)
@@ -808,7 +929,12 @@ func limitedness(l bool) string {
 }
 
 func (e *env) runLimit(c *limCfg) {
-	ctx := e.initLimit(c)
+	ctx, fails := e.initLimit(c)
+	if e.shard == 0 {
+		for _, f := range fails {
+			e.violate(f, c.replay(nil), 0)
+		}
+	}
 	dS, dB := e.digests(ctx)
 	m := &model{total: new(big.Int)}
 	e.dfs(c, ctx, m, nil, 0, dS, dB)
@@ -844,7 +970,7 @@ func (e *env) dfs(c *limCfg, ctx sdk.Context, m *model, path []step, hmin int, d
 				if m.open {
 					rel = fmt.Sprintf("d%d", indexOf(c.heights, m.start))
 				}
-				e.r.Case(fmt.Sprintf("limit|%s|%s|%s|%s|h%d|%s|%s|%s", c.Period, c.Limit, s.Kind, s.Amount, j, rel, m.total, outcome))
+				e.r.Case(fmt.Sprintf("limit|%s|%s|%s|%s|%s|h%d|%s|%s|%s", c.Period, c.Limit, c.path(), s.Kind, s.Amount, j, rel, m.total, outcome))
 				if mm.sliding && !m.sliding {
 					e.slidingExceed++
 					if e.slidingExceed <= 1 && e.shard == 0 {
@@ -856,7 +982,7 @@ func (e *env) dfs(c *limCfg, ctx sdk.Context, m *model, path []step, hmin int, d
 				}
 			}
 			if f != nil {
-				e.violate(f, map[string]interface{}{"part": "limit", "period": c.Period, "limit": c.Limit, "steps": p}, len(p))
+				e.violate(f, c.replay(p), len(p))
 				continue
 			}
 			if depth+1 < c.depth {
@@ -920,6 +1046,23 @@ func (e *env) partLimit() {
 			e.newCfg("YEARLY", pow2(200), 3, 1),
 		}
 	}
+	// limit 0 and unset limit: nothing may be bridged by non-exempt senders; every real period x every store path
+	zdepth := 2
+	if e.r.Thorough() {
+		zdepth = 3
+	}
+	for _, period := range []string{"DAILY", "WEEKLY", "MONTHLY", "YEARLY"} {
+		for _, nilLimit := range []bool{false, true} {
+			for _, path := range []string{"handler", "keeper", "genesis"} {
+				c := e.newCfg(period, big.NewInt(0), zdepth, 1)
+				c.Path, c.NilLimit = path, nilLimit
+				if nilLimit {
+					c.Limit = "nil"
+				}
+				cfgs = append(cfgs, c)
+			}
+		}
+	}
 	if e.shard == 0 {
 		var desc []string
 		for _, c := range cfgs {
@@ -927,7 +1070,7 @@ func (e *env) partLimit() {
 			for _, k := range c.kinds {
 				ks = append(ks, k.Kind+"("+k.Amount+")")
 			}
-			desc = append(desc, fmt.Sprintf("period=%s W=%d limit=%s sequences<=%d kinds=[%s]", c.Period, c.wlen, c.Limit, c.depth, strings.Join(ks, " ")))
+			desc = append(desc, fmt.Sprintf("period=%s W=%d limit=%s path=%s sequences<=%d kinds=[%s]", c.Period, c.wlen, c.Limit, c.path(), c.depth, strings.Join(ks, " ")))
 		}
 		e.r.Extra["limit_scenarios"] = desc
 	}
@@ -969,13 +1112,19 @@ func (e *env) replay(file string) {
 		}
 	case "limit":
 		var in struct {
-			Period string `json:"period"`
-			Limit  string `json:"limit"`
-			Steps  []step `json:"steps"`
+			Period   string `json:"period"`
+			Limit    string `json:"limit"`
+			Path     string `json:"path"`
+			NilLimit bool   `json:"nil_limit"`
+			Steps    []step `json:"steps"`
 		}
 		must(json.Unmarshal(raw, &in))
-		c := e.newCfg(in.Period, bi(in.Limit), len(in.Steps), 2)
-		ctx := e.initLimit(c)
+		c := e.newCfg(in.Period, limitOf(in.Limit), len(in.Steps), 2)
+		c.Path, c.NilLimit, c.Limit = in.Path, in.NilLimit, in.Limit
+		ctx, fails := e.initLimit(c)
+		for _, f := range fails {
+			e.violate(f, v.Replay, 0)
+		}
 		m := &model{total: new(big.Int)}
 		for i, s := range in.Steps {
 			dS, dB := e.digests(ctx)
